@@ -167,12 +167,18 @@ impl Scenario for Xen {
             }
             if windows != base_windows {
                 cx().violate("C17", "C17/window-leak", fp("temporary mapping left after an access"), format!("{}: {} mapping(s) are live, before the access there were {}", line, windows, base_windows));
+                if windows < base_windows {
+                    cx().violate("C12", "C12/early-unmap", format!("{:?} region's own mapping unmapped by an access", kind), format!("{}: the region is alive but its mapping is gone ({} live mapping(s), {} before the access)", line, windows, base_windows));
+                }
             }
             for a in cx().sys.xen.as_mut().unwrap().anomalies.drain(..).collect::<Vec<_>>() {
                 cx().violate("C17", "C17/device", fp("device protocol"), format!("{}: {}", line, a));
             }
             for a in std::mem::take(&mut cx().sys.anomalies) {
                 cx().violate("C17", "C17/device", fp("address space"), format!("{}: {}", line, a));
+                if a.contains("second munmap") || a.contains("never mapped") || a.contains("length") {
+                    cx().violate("C12", if a.contains("second munmap") { "C12/double-unmap" } else if a.contains("length") { "C12/wrong-length" } else { "C12/foreign-munmap" }, format!("{:?} region: {}", kind, a.split(" #").next().unwrap_or("")), format!("{}: {}", line, a));
+                }
             }
             // data: the guest's memory is what the model says
             if !inject && outcome.is_ok() && w.backing() != w.model {
@@ -196,6 +202,9 @@ impl Scenario for Xen {
         }
         if cx().violations.is_empty() {
             let dev = cx().sys.xen.as_ref().unwrap();
+            if cx().sys.live_count() != 0 || cx().sys.anomalies.iter().any(|a| a.contains("munmap")) {
+                cx().violate("C12", if cx().sys.live_count() != 0 { "C12/leak" } else { "C12/double-unmap" }, format!("{} region drop", kind_s), format!("after dropping the region: {} live mapping(s), anomalies {:?}", cx().sys.live_count(), cx().sys.anomalies));
+            }
             if !dev.live_grants().is_empty() || cx().sys.live_count() != 0 || !cx().sys.anomalies.is_empty() || !dev.anomalies.is_empty() {
                 cx().violate("C17", "C17/drop", format!("{} region drop", kind_s), format!("after dropping the region: live grants {:x?}, live mappings {}, anomalies {:?} {:?}", dev.live_grants(), cx().sys.live_count(), cx().sys.anomalies, dev.anomalies));
             }
@@ -223,7 +232,7 @@ fn one_op(w: &mut XWorld) -> (String, &'static str, Result<(), String>) {
     let room = size - off;
     let stamp = cx().a(200) as usize;
     let newb = |i: usize| pat(i + 31 * (stamp + 1)) ^ 0x55;
-    let k = cx().a(15);
+    let k = cx().a(16);
     let at = MemoryRegionAddress(off as u64);
     match k {
         0 => {
@@ -423,6 +432,20 @@ fn one_op(w: &mut XWorld) -> (String, &'static str, Result<(), String>) {
                 })
             }));
             (format!("pointer guard of {} over {} x {} at {}", ["a slice", "a typed reference", "an element array"][which as usize], n, TYPE_NAMES[ti], off), "ptr_guard", r.and_then(|x| x))
+        }
+        15 => {
+            // the region's bytes written straight to a descriptor (the syscall buffer must stay mapped during write(2))
+            let n = 1 + cx().a(room.min(5000) as u32) as usize;
+            let mut f = crate::gmworld::memfd(0);
+            use std::os::fd::AsRawFd;
+            let r = res(catch(|| w.region.write_all_volatile_to(at, &mut f, n).map_err(|e| format!("{:?}", e))));
+            let ok = r.and_then(|x| x).and_then(|()| {
+                let mut got = vec![0u8; n];
+                // SAFETY: pread into our own buffer.
+                let k = unsafe { libc::pread(f.as_raw_fd(), got.as_mut_ptr() as *mut libc::c_void, n, 0) };
+                if k == n as isize && got[..] == w.model[off..off + n] { Ok(()) } else { Err("the descriptor received wrong bytes".into()) }
+            });
+            (format!("write_all_volatile_to({}, File, {})", off, n), "write_all_volatile_to(File)", ok)
         }
         _ => {
             // descriptor read straight into the region (the syscall buffer must be mapped)
